@@ -1575,12 +1575,12 @@ struct FarPlace
     quad unit (int div) const { return qmax (grid, ext / (quad) div); }
 };
 
-template <class T> static FarPlace gen_far (vp::Ctx& c, int N)
+template <class T> static FarPlace gen_far (vp::Ctx& c, int N, int emin = -3, int emax = 3)
 {
     vp::Src&  s    = c.s;
     const int KMAX = FarK<T>::KMAX;
     FarPlace  f;
-    int       e    = (int) s.range (-3, 3);
+    int       e    = (int) s.range (emin, emax);
     bool      none = s.chance (24);
     int       k    = (int) s.range (0, KMAX);
     int       dc   = (int) s.below (3);
@@ -1866,7 +1866,7 @@ template <class Vec, class T, int N> static void far_vertex_case (vp::Ctx& c, co
     if (nclose == 1) c.label (FV_FORCED);
     c.nt (!f.none);
     if (dmin > 0) QG_MEAS ("closestVertex/far-excess(eps)", (d2[which] / dmin - 1) / eps);
-    VP_REQUIRE (c, d2[which] <= dmin * (1 + K * eps), "closestVertex/not-closest-far-offset", tn << " closestVertex(" << vstr (v[0], N) << "," << vstr (v[1], N) << "," << vstr (v[2], N) << "; p=" << vstr (p, N) << ") = vertex " << which << " at squared distance " << qstr (d2[which]) << " but the minimum is " << qstr (dmin) << " (squared distances " << qstr (d2[0]) << " " << qstr (d2[1]) << " " << qstr (d2[2]) << "; ratio - 1 = " << (double) ((d2[which] / (dmin > 0 ? dmin : 1) - 1) / eps) << " eps)");
+    VP_REQUIRE (c, d2[which] <= dmin * (1 + K * eps), "closestVertex/not-closest-far-offset", tn << " closestVertex(" << vstr (v[0], N) << "," << vstr (v[1], N) << "," << vstr (v[2], N) << "; p=" << vstr (p, N) << ") = vertex " << which << " at squared distance " << qstr (d2[which]) << " but the minimum is " << qstr (dmin) << " (squared distances " << qstr (d2[0]) << " " << qstr (d2[1]) << " " << qstr (d2[2]) << "; excess over the minimum " << (dmin > 0 ? (double) ((d2[which] / dmin - 1) / eps) : 1e300) << " eps, limit " << (double) K << ")");
     if (lattice) // all keys exact: no slack at all; any of the tied vertices
         VP_REQUIRE (c, d2[which] == dmin, "closestVertex/not-closest-far-offset", tn << " (exact lattice) closestVertex returned vertex " << which << " at squared distance " << qstr (d2[which]) << ", minimum " << qstr (dmin));
 }
@@ -2317,7 +2317,7 @@ template <class T> static void far_plane_case (vp::Ctx& c, const char* tn)
     typedef Vec3<T> V;
     vp::Src&        s   = c.s;
     const quad      eps = EPS<T> ();
-    FarPlace        f   = gen_far<T> (c, 3);
+    FarPlace        f   = gen_far<T> (c, 3, -12, 4);
     Q3              O   = f.o3 ();
     int             how = (int) s.below (3);
     Plane3<T>       P, P2;
@@ -2522,7 +2522,7 @@ template <class T> static void far_plane_case (vp::Ctx& c, const char* tn)
     }
 }
 #define C15_FP_LABELS C15_FO_LABELS, "from_three_points", "from_three_lattice_points", "from_point_normal", "sliver_triangle", "collinear_skipped", "q_is_defining_point", "q_on_or_2^-j_off_the_plane", "q_generic", "line_hit_well_conditioned", "line_grazing", "line_at_angle_2^-j", "line_parallel_reported"
-#define C15_FP_RULE C15_FO_RULE "planes from three local points (edges generic / slivers with sin 2^-3..2^-10 / lattice points, half of them in a coordinate plane) or point + normal (length 2^-6..2^7); query point = a defining point, on the plane, 2^-j extents off it, generic; lines generic, at an angle 2^-4..2^-(digits+3) to the plane, or exactly parallel to an axis-aligned plane; oracle = quad evaluation on the stored plane, units as in plane_*; three collinear points (sin <= 64 eps after rounding) are skipped and counted; non-trivial = translated"
+#define C15_FP_RULE C15_FO_RULE "(extent 2^-12..2^4 here) planes from three local points (edges generic / slivers with sin 2^-3..2^-10 / lattice points, half of them in a coordinate plane) or point + normal (length 2^-6..2^7); query point = a defining point, on the plane, 2^-j extents off it, generic; lines generic, at an angle 2^-4..2^-(digits+3) to the plane, or exactly parallel to an axis-aligned plane; oracle = quad evaluation on the stored plane, units as in plane_*; three collinear points (sin <= 64 eps after rounding) are skipped and counted; non-trivial = translated"
 VP_RANDOM (far_plane_f, 200000, 2000000, C15_FP_RULE) { far_plane_case<float> (c, "float"); }
 VP_LABELS (far_plane_f, C15_FP_LABELS)
 VP_REQUIRE_LABELS (far_plane_f, C15_FP_LABELS)
@@ -2668,7 +2668,7 @@ template <class T> static void far_tri_case (vp::Ctx& c, const char* tn)
 {
     typedef Vec3<T> V;
     vp::Src&        s = c.s;
-    FarPlace        f = gen_far<T> (c, 3);
+    FarPlace        f = gen_far<T> (c, 3, -12, 4); // small triangles too: "area very small" means zero, at every scale
     {
         uint64_t m  = c.labelmask;
         c.labelmask = m << (TR_FALSE + 1);
@@ -2809,7 +2809,7 @@ template <class T> static void far_tri_case (vp::Ctx& c, const char* tn)
     if (c.nontrivial && !degenerate && !inplane) c.label (FT_HIT_DECIDED);
 }
 #define C15_FT_LABELS C15_TR_LABELS, C15_FO_LABELS, "hit_or_miss_decided", "intended_hit_2^-j_from_an_edge_or_vertex"
-#define C15_FT_RULE C15_FO_RULE "local triangles (regular, thin with altitude 2^-5..2^-12 of the base, exactly degenerate on the lattice, in a plane z = const with an in-plane line) x intended barycentrics (interior, 2^-1..2^-(digits) inside/outside an edge or vertex, clearly outside, centroid) x lines through the hit from either side incl. |n.dir| 2^-3..2^-12 and hits behind pos; oracle, band and units as in tri_* with the far form of the position unit ((|v|+|pos|+|t|) + (|v0-pos|+|t|)/|n.dir| + cond |X-v0|/|n.dir|); non-trivial as in tri_* (conditioning eps M / altitude <= 1/256 and hit outside the band)"
+#define C15_FT_RULE C15_FO_RULE "(extent 2^-12..2^4 here) local triangles (regular, thin with altitude 2^-5..2^-12 of the base, exactly degenerate on the lattice, in a plane z = const with an in-plane line) x intended barycentrics (interior, 2^-1..2^-(digits) inside/outside an edge or vertex, clearly outside, centroid) x lines through the hit from either side incl. |n.dir| 2^-3..2^-12 and hits behind pos; oracle, band and units as in tri_* with the far form of the position unit ((|v|+|pos|+|t|) + (|v0-pos|+|t|)/|n.dir| + cond |X-v0|/|n.dir|); non-trivial as in tri_* (conditioning eps M / altitude <= 1/256 and hit outside the band)"
 VP_RANDOM (far_tri_f, 250000, 2500000, C15_FT_RULE) { far_tri_case<float> (c, "float"); }
 VP_LABELS (far_tri_f, C15_FT_LABELS)
 VP_REQUIRE_LABELS (far_tri_f, "hit_interior", "hit_near_edge", "hit_near_vertex", "passes_outside", "front_facing", "back_facing", "hit_behind_line_origin", "grazing_line", "thin_triangle", "degenerate_triangle", "line_parallel_to_plane", "returned_true", "returned_false", C15_FO_REQUIRED, "hit_or_miss_decided", "intended_hit_2^-j_from_an_edge_or_vertex")
